@@ -22,6 +22,7 @@ PROPS["C06"] = dict(
     expected=lambda kind, cid: ("Eval vm_compute in (map expected_expr (filter (fun c => N.eqb (eid c) %d) ecases))." % cid) if kind == 5
         else ("Eval vm_compute in (map expected_pair (filter (fun c => N.eqb (pid c) %d) pcases))." % cid),
     trusted=COMMON_TRUST + [FLOAT_TRUST, ORACLE_TRUST,
+        "C06_float_and_integer_arithmetic_agree goes through Flocq's real-number proofs: axioms of the standard library's Reals (ClassicalDedekindReals.sig_forall_dec, sig_not_dec), Classical_Prop.classic, FunctionalExtensionality.functional_extensionality_dep and the FloatAxioms / Uint63 specification axioms, all listed by Print Assumptions",
         "modelled, not verified: Go's float64 arithmetic is IEEE-754 binary64 round-to-nearest-even for + - * / (no fused operations on amd64); float64(int64) rounds to nearest even; math.Mod is exact"],
     assumptions=["LIKE, row-value comparisons inside expressions, sub-queries and function calls are outside the modelled expression fragment (generated expressions never use them)"],
 )
@@ -30,7 +31,7 @@ HOOK_COMMITS = []
 NOT_YET = {}
 
 PROPS["C06"].update(
-    level_text="Proof: 29 Coq theorems/examples (Properties/C06.v) over ALL values of the seven classes state the consistency laws (a<b iff b>a, <> is NOT =, = symmetric, <= is < OR = exactly on ordered operands with bool/NaN counter-examples), NULL/incommensurable => UNKNOWN, Kleene AND/OR/NOT incl. the evaluator's short-circuits, the BETWEEN/IN/ANY/ALL/IS/CASE expansions, and the NULL/integer/float typing, division-by-zero and integer-% sign/magnitude laws of arithmetic, about an executable model of the coercion ladder, Calculate and the expression evaluator. The model is tied to the code by running value.Compare, query.Calculate and parser.Parse+query.Evaluate on boundary cross products and random operands/expressions and comparing every answer (float bits) with the model inside Coq; the laws are additionally evaluated on the implementation's own answers. Not proved (checked only by the correspondence): float/integer agreement of + - * % below 2^53 and the sign/magnitude of float %.",
+    level_text="Proof: 30 Coq theorems/examples (Properties/C06.v) over ALL values of the seven classes state the consistency laws (a<b iff b>a, <> is NOT =, = symmetric, <= is < OR = exactly on ordered operands with bool/NaN counter-examples), NULL/incommensurable => UNKNOWN, Kleene AND/OR/NOT incl. the evaluator's short-circuits, the BETWEEN/IN/ANY/ALL/IS/CASE expansions, and the NULL/integer/float typing, division-by-zero and integer-% sign/magnitude laws of arithmetic, about an executable model of the coercion ladder, Calculate and the expression evaluator. The model is tied to the code by running value.Compare, query.Calculate and parser.Parse+query.Evaluate on boundary cross products and random operands/expressions and comparing every answer (float bits) with the model inside Coq; the laws are additionally evaluated on the implementation's own answers. Float/integer agreement of + - * is a theorem as well (C06_float_and_integer_arithmetic_agree: for |a|,|b|,|a op b| < 2^53 the float path on float64(a), float64(b) is finite with real value exactly a op b; binary64 through Flocq). Not proved (checked only by the correspondence, incl. the laws evaluated on observed answers): the same agreement and the sign/magnitude law for float %.",
     level_note="Trusted: Coq kernel + vm_compute; Coq's primitive floats and FloatAxioms; Go harness; string oracles (ParseFloat, ToUpper, csvq's StrToTime) carried as data; IEEE-754 behaviour of Go float64 on amd64. The expression fragment excludes LIKE, row values, sub-queries, functions.",
     design_ref="DESIGN.md section 5 (C06)",
 )
@@ -83,11 +84,13 @@ PROPS["C05"] = dict(
     theorem_file="Properties/C05.v",
     kinds={1: ("dml-mismatch", "after some statement of the history the reported count or the table (SELECT *) differs from Model.Dml.exec", True),
            2: ("dml-frame", "the implementation's own observations break the frame condition (a failed statement changed the table; INSERT/DELETE row counts do not move by the reported number; old rows not kept in place)", True),
-           4: ("oracle-wf", "string oracle inconsistent with the modelled parsers", True)},
-    expected=lambda kind, cid: "Eval vm_compute in (map expected_dml (filter (fun c => N.eqb (did c) %d) dcases))." % cid,
+           4: ("oracle-wf", "string oracle inconsistent with the modelled parsers", True),
+           6: ("multi-table-mismatch", "after a multi-table DELETE / UPDATE the per-table counts or one of the two tables differ from Model.Dml.delete_join / update_join", True),
+           7: ("multi-table-frame", "multi-table statement: the row count of a table does not drop by the number reported for it, rows appear that were not there, or a failed statement changed a table", True)},
+    expected=lambda kind, cid: ("Eval vm_compute in (map expected_multi (filter (fun c => N.eqb (mid c) %d) mcases))." % cid) if cid >= 500000 else ("Eval vm_compute in (map expected_dml (filter (fun c => N.eqb (did c) %d) dcases))." % cid),
     trusted=COMMON_TRUST + [FLOAT_TRUST, ORACLE_TRUST],
-    assumptions=_QUERY_ASSUME + ["multi-table UPDATE/DELETE, stdin tables and the final COMMIT of the history are not modelled here (files: C01/C02)", "column names are resolved to positions by the harness, which tracks ADD/DROP/RENAME"],
-    level_text="Proof: Coq theorems (Properties/C05.v) over ALL tables and statements of the modelled single-table forms: INSERT appends exactly the given rows in order (listed columns get their value, the others NULL; old rows and width untouched; count = rows given); UPDATE keeps number and order of rows, leaves rows whose condition is not TRUE unchanged and, in matching rows, every column outside the SET list (count = matching rows); DELETE keeps exactly the non-matching rows in order (count = removed); ADD COLUMN / DROP COLUMN / RENAME leave the other cells and their order untouched; histories compose (fold) and a failing statement changes nothing. The model (Model/Dml.v incl. REPLACE after the repair of the map-order defect) is tied to the code by histories of 1-10 statements on file tables and temporary tables through parser.Parse + Processor.ExecuteStatement, comparing the reported count and SELECT * after every statement inside Coq. Partial: REPLACE has no general theorem yet (model + correspondence + example only); multi-table forms are not modelled.",
+    assumptions=_QUERY_ASSUME + ["multi-table forms are modelled for two inner-joined file tables (DELETE of either or both, UPDATE of the first); stdin tables are not covered", "column names are resolved to positions by the harness, which tracks ADD/DROP/RENAME"],
+    level_text="Proof: Coq theorems (Properties/C05.v) over ALL tables and statements of the modelled single-table forms: INSERT appends exactly the given rows in order (listed columns get their value, the others NULL; old rows and width untouched; count = rows given); UPDATE keeps number and order of rows, leaves rows whose condition is not TRUE unchanged and, in matching rows, every column outside the SET list (count = matching rows); DELETE keeps exactly the non-matching rows in order (count = removed); ADD COLUMN / DROP COLUMN / RENAME leave the other cells and their order untouched; histories compose (fold) and a failing statement changes nothing. The model (Model/Dml.v incl. REPLACE after the repair of the map-order defect) is tied to the code by histories of 1-10 statements on file tables and temporary tables through parser.Parse + Processor.ExecuteStatement, comparing the reported count and SELECT * after every statement inside Coq. Multi-table DELETE / UPDATE over two joined tables are modelled (delete_join, update_join) and compared the same way, including per-file counts and the files after COMMIT. Partial: REPLACE and the multi-table forms have no general theorem yet (model + correspondence + examples only).",
     level_note="Trusted: Coq kernel + vm_compute; primitive floats; Go harness incl. its tracking of column names; string oracles.",
     design_ref="DESIGN.md section 5 (C05)")
 
